@@ -551,7 +551,9 @@ def rule_utf8(ck):
 
 
 def run(ck):
-    from ..x_valuewalk import guard_obligations
+    from ..x_valuewalk import guard_obligations, plain_assignments
+
+    ck.repo = plain_assignments(ck.repo, ['tornado/escape.py'])
 
     guard_obligations(ck, [])
     ck.rule("C21.html", "xhtml_escape = html.escape(to_unicode(value)) with quote escaping; xhtml_unescape = html.unescape(to_unicode(value))")
